@@ -18,6 +18,8 @@ set_option linter.constructorNameAsVariable false
   params vects(9) ucell_a nshifts shift(3)* | ctor-args | ncalls (set|gen args)* | center(- | 3) cscale | width wscale
       args = shift(- | 3 rat) index(- | int) scale(0/1)
       -> ok ctor-shift | reply ; reply … | final shift | center | width        | err:value / err:index (constructor refused)
+  head mono line vects(9) lens(3) ucell_a nshifts shift(3)* cur(3) mults mins(3) args center(- | 3) cscale shape width wscale
+      mults = - | n (i<int> | o)*   -> ok sizes(6) | shift | centre | width | shape | stored shift    or   err:<class> | stored shift
      <common> = m n | s0 s1 s2 qa qb qc | pbc(3) | rcell box(12) | natoms | (atype x y z)* | shift(3) | center(3)
 -/
 
@@ -463,6 +465,55 @@ def handleParams (toks : List String) : String :=
       "ok " ++ showV s0 ++ " | " ++ " ; ".intercalate (r.2.map showReply) ++ " | " ++ showV r.1 ++ " | " ++
         showV (resolveCenter vects c cs) ++ " | " ++ showRat (resolveWidth ua w ws)
 
+/-! ### head: the argument handling of a generator call (`callHead`) -/
+
+def pMultEntry : P MultEntry := do
+  let t ← tok
+  if t = "o" then pure .other
+  else if t.startsWith "i" then
+    match (t.drop 1).toInt? with
+    | some v => pure (.int v)
+    | none => failure
+  else failure
+
+def pMults : P (Option (List MultEntry)) := fun s =>
+  match s with
+  | "-" :: r => some (none, r)
+  | _ => (do let n ← pNat; let l ← pMany pMultEntry n; pure (some l) : P _) s
+
+/-- `head mono line vects(9) lens(3) ucell_a nshifts shift(3)* cur(3) mults mins(3) shiftargs center(-|3) cscale shape
+    width wscale` with `mults` = `-` | `n (i<int>|o)*`
+    -> `ok lo hi lo hi lo hi | shift | centre | width | shape | stored shift` or `err:<class> | stored shift`. -/
+def handleHead (toks : List String) : String :=
+  let p : P (Bool × Nat × M3 Rat × V3 Rat × Rat × List (V3 Rat) × V3 Rat × CallArgs Rat) := do
+    let mono ← pBool
+    let line ← pNat
+    let vects ← pM3
+    let lens ← pV3
+    let ua ← pRat
+    let ns ← pNat
+    let shifts ← pMany pV3 ns
+    let cur ← pV3
+    let mults ← pMults
+    let mins ← pV3
+    let sh ← pShiftArgs
+    let c ← pOptV3; let cs ← pBool
+    let shape ← tok
+    let w ← pRat; let ws ← pBool
+    pEnd
+    if line > 2 then failure
+    pure (mono, line, vects, lens, ua, shifts, cur, ⟨mults, mins, sh, c, cs, shape, w, ws⟩)
+  match p.run toks with
+  | none => err "format"
+  | some ((mono, line, vects, lens, ua, shifts, cur, a), _) =>
+    if lens.x ≤ 0 || lens.y ≤ 0 || lens.z ≤ 0 then err "format" else
+    match callHead Rat.ceil mono line vects lens ua shifts cur a with
+    | (c', .error e) => "err:" ++ e ++ " | " ++ showV c'
+    | (c', .ok h) =>
+      "ok " ++ showInts [h.sizes.a.lo, h.sizes.a.hi, h.sizes.b.lo, h.sizes.b.hi, h.sizes.c.lo, h.sizes.c.hi] ++ " | " ++
+        showV h.shift ++ " | " ++ showV h.center ++ " | " ++ showRat h.width ++ " | " ++
+        (match h.shape with | .box => "box" | .cylinder => "cylinder") ++ " | " ++ showV c'
+
 def handleC13 (toks : List String) : String :=
   match toks with
   | "cells" :: rest =>
@@ -501,6 +552,7 @@ def handleC13 (toks : List String) : String :=
   | "region" :: rest => handleRegion rest
   | "disreg" :: rest => handleDisreg rest
   | "params" :: rest => handleParams rest
+  | "head" :: rest => handleHead rest
   | _ => err "op"
 
 def main : IO Unit := runDriver handleC13
